@@ -26,7 +26,7 @@ import ast
 
 from ..engines.blockeval import BlockEval, T
 from ..normalise import single_exit
-from ..srcmodel import AnalysisError, U, clone, kwarg
+from ..srcmodel import AnalysisError, U, clone, kwarg, calls_in
 from ..symexpr import SymEval, Atoms, sym
 
 GM = 'src/mbi/graphical_model.py'
@@ -86,10 +86,43 @@ def run(ctx):
     ctx.trusted = ['numpy.random.choice(n, size, replace, p), numpy.repeat, numpy.modf; pandas groupby(keys).apply passes each group with '
                    '.name = its key tuple in the order of the keys']
     fi = repo.nfunc(GM, 'GraphicalModel.synthetic_data')
+    # a column generator lifted out of synthetic_data to module level (a new function that draws random numbers and is called from it):
+    # analysed as the function it is, not inlined at its call sites
+    raw = repo.func(GM, 'GraphicalModel.synthetic_data')
+    from ..normalise import is_established, normalised_keeping
+    lifted_names = set()
+    for c_ in calls_in(raw.node):
+        if isinstance(c_.func, ast.Name) and c_.func.id in raw.module.funcs and not is_established(GM, c_.func.id):
+            g_ = raw.module.funcs[c_.func.id]
+            if g_.cls is None and any(U(x.func).startswith(('np.random.', 'numpy.random.')) for x in calls_in(g_.node)):
+                lifted_names.add(c_.func.id)
+    if lifted_names:
+        fi = normalised_keeping(repo, raw, lifted_names)
     ctx.analysed(fi)
     rows_p = fi.params[1] if len(fi.params) > 1 else 'rows'
     method_p = fi.params[2] if len(fi.params) > 2 else 'method'
     gens = {s.name: s for s in fi.body if isinstance(s, ast.FunctionDef)}
+    # a generator lifted to module level takes the method as a parameter: every call site has to hand it on
+    module_gens = {q: f_.node for q, f_ in fi.module.funcs.items() if f_.cls is None and '.' not in q and q not in gens}
+    lifted = {}
+    for c_ in [n for n in ast.walk(fi.node) if isinstance(n, ast.Call) and isinstance(n.func, ast.Name) and n.func.id in module_gens]:
+        g_ = module_gens[c_.func.id]
+        ps_ = [a.arg for a in g_.args.args]
+        if len(ps_) == 3 and len(g_.args.defaults) >= 1 and len(c_.args) >= 2:
+            lifted.setdefault(c_.func.id, []).append(c_)
+    for name_, calls_ in lifted.items():
+        g_ = module_gens[name_]
+        mp_ = g_.args.args[2].arg
+        gens[name_] = g_
+        for c_ in calls_:
+            given = c_.args[2] if len(c_.args) >= 3 else next((k.value for k in c_.keywords if k.arg == mp_), None)
+            ctx.ob('method-forwarded', fi, c_, given is not None and T(given) == method_p,
+                   'the column generator `%s` takes the generation method as a parameter (default %s): every call must hand on the caller\'s `%s`; '
+                   'this call passes %s' % (name_, U(g_.args.defaults[-1]), method_p, ('`%s`' % U(given)) if given is not None else
+                                           'nothing - the column is generated with the default whatever the caller asked for'),
+                   construct='method at ' + U(c_)[:60])
+            c_.args = c_.args[:2]
+            c_.keywords = [k for k in c_.keywords if k.arg != mp_]
     be = walk([s for s in fi.body])
     # ---- the column stores of the main body and of the per-group callbacks ----------------------------------------------
     sites = []        # (container text, column expr, value expr, pc, where, env of the enclosing walk, kind)
@@ -140,10 +173,14 @@ def run(ctx):
         raise AnalysisError('synthetic_data: expected every column to be produced by one generator function; found %s' % sorted(gen_names))
     G = gens[gen_names.pop()]
     gparams = [a.arg for a in G.args.args]
-    if len(gparams) != 2:
-        raise AnalysisError('synthetic_data: generator `%s` does not take (counts, rows)' % G.name)
-    counts, rows = gparams
-    check_generator(ctx, fi, G, counts, rows, method_p)
+    if G.name in lifted and len(gparams) == 3:
+        counts, rows = gparams[:2]
+        check_generator(ctx, fi, G, counts, rows, gparams[2])
+    else:
+        if len(gparams) != 2:
+            raise AnalysisError('synthetic_data: generator `%s` does not take (counts, rows)' % G.name)
+        counts, rows = gparams
+        check_generator(ctx, fi, G, counts, rows, method_p)
 
     # ---- rows-default ----------------------------------------------------------------------------------------------------------
     total_val = None
